@@ -25,6 +25,11 @@ Modelling decisions
   reads there is the value it holds anyway.
 * One kind of retired object (the code runs the same loop once for nodes and once for values per
   slot, each with a fresh load of `G`; in the model that is two consecutive visits).
+* `unlinkRetire` is one step although the code unlinks first (under the node lock) and pushes to
+  the retire queue a little later, reading its own `begin` in between. Sound: `begin[i]` is
+  written only by the worker itself and is constant during its session; and the sessions that
+  were active at the unlink and have not left are still active at the push, so the witness set
+  recorded at the push is a superset of the one the property speaks about.
 * The retire queue push/pop are atomic (TBB `concurrent_queue`); the cache cell is private to the
   gc thread.
 * Ghost state: `allocd` (object ids already used — an unlinked object is a fresh id), `wit`
